@@ -6,7 +6,7 @@ import random
 from hypothesis import strategies as st
 from hypothesis.stateful import RuleBasedStateMachine, invariant, precondition, rule
 
-from vf import core, graphalgo
+from vf import core, graphalgo, models
 
 ID = "C15"
 LEVEL = "exploration"
@@ -158,6 +158,7 @@ def run_graph_case(case):
 class Model:
     def __init__(self):
         self.nodes = []
+        self.attrs = {}  # node -> (sequence, tags) it was added with
         self.links = []  # (a, oa, b, ob, ov, tags) in history order, surviving only
 
     def sides(self):
@@ -173,9 +174,11 @@ class Model:
 def apply_step(g, model, step):
     op = step[0]
     if op == "add_node":
+        seq, tags = (step[2], list(step[3] or [])) if len(step) >= 4 else ("", [])
         if step[1] not in model.nodes:
             model.nodes.append(step[1])
-        r = core.call(g.add_node, step[1])
+            model.attrs[step[1]] = (seq, tags)
+        r = core.call(g.add_node, step[1], seq, list(tags)) if len(step) >= 4 else core.call(g.add_node, step[1])
         core.check(r[0] == "ok", "add_node failed: %s", r)
     elif op == "add_edge":
         _, a, oa, b, ob, ov, tags = step
@@ -187,6 +190,7 @@ def apply_step(g, model, step):
         r = core.call(g.remove_node, n)
         core.check(r[0] == "ok", "remove_node(%s) failed: %s", n, r)
         model.nodes.remove(n)
+        model.attrs.pop(n, None)
         model.links = [l for l in model.links if l[0] != n and l[2] != n]
     else:
         raise AssertionError(op)
@@ -216,11 +220,27 @@ def check_state(g, model, rebuild_seed=0):
     order = list(model.nodes)
     random.Random(rebuild_seed).shuffle(order)
     for n in order:
-        fresh.add_node(n)
+        seq_, tags_ = model.attrs.get(n, ("", []))
+        fresh.add_node(n, seq_, list(tags_)) if (seq_ or tags_) else fresh.add_node(n)
     for a, oa, b, ob, ov, tags in model.links:
         fresh.add_edge(a, oa, b, ob, ov, list(tags) if tags else None)
     core.check(g.is_equal_to(fresh) and fresh.is_equal_to(g), "graph differs from the one built from the surviving nodes and links")
     core.check(g.edge_tags == fresh.edge_tags, "edge tags %s differ from those of the rebuilt graph %s", g.edge_tags, fresh.edge_tags)
+    # walks over the current links: every two-step path is a walk exactly when a link joins the two steps
+    lm = models.LinkModel([l[:4] for l in model.links])
+    for a in model.nodes[:5]:
+        for b in model.nodes[:5]:
+            for oa in "><":
+                for ob in "><":
+                    want = lm.is_walk([(oa, a), (ob, b)])
+                    r = core.call(g.path_exists, [oa + a, ob + b])
+                    core.check(r[0] == "ok" and bool(r[1]) == want, "path_exists(%s%s%s%s) = %s, the links %s it", oa, a, ob, b, r,
+                               "permit" if want else "do not permit")
+                    sa, sb = model.attrs.get(a, ("", []))[0], model.attrs.get(b, ("", []))[0]
+                    if sa and sb:
+                        r = core.call(g.extract_path, oa + a + ob + b)
+                        exp = ((sa if oa == ">" else models.revcomp(sa)) + (sb if ob == ">" else models.revcomp(sb))) if want else ""
+                        core.check(r[0] == "ok" and r[1] == exp, "extract_path(%s%s%s%s) = %s, expected %r", oa, a, ob, b, r, exp)
     if model.nodes:
         check_graph(g, list(model.nodes), [l[:5] for l in model.links])
 
@@ -289,6 +309,11 @@ def machine(tier, stats):
         @rule(n=st.sampled_from(IDS))
         def add_node(self, n):
             self.do(("add_node", n))
+
+        @rule(n=st.sampled_from(IDS), seq=st.sampled_from(["ACG", "T", "GGcat"]),
+              tags=st.sampled_from([[], ["SN:Z:chr1", "SO:i:0", "SR:i:0"], ["SN:Z:h#1#x", "SO:i:7", "SR:i:1", "xx:Z:q"]]))
+        def add_node_with_sequence_and_tags(self, n, seq, tags):
+            self.do(("add_node", n, seq, tags))
 
         @precondition(lambda self: len(self.model.nodes) >= 1)
         @rule(data=st.data(), oa=st.sampled_from("+-"), ob=st.sampled_from("+-"), ov=st.sampled_from([0, 0, 3]),
